@@ -170,6 +170,10 @@ def specOp : Op → N → Except Err (Out × N)
   | .stat p, t => mapOut .stat (N.atPath p sStat t)
   | .ls p, t => mapOut .names (N.atPath p sLs t)
   | .lsl p, t => mapOut .listing (N.atPath p sLsl t)
+  | .dmkdir p k, t => mapOut (fun _ => .unit) (N.atPath p (smkdirRec false {} [k]) t)
+  | .rflush, t => .ok (.unit, t)
+  | .memfree, t => .ok (.unit, t)
+  | .reopen, t => .ok (.unit, t)
 
 /-- the specification machine: a failed op leaves the tree as it was -/
 def sstep (t : N) (op : Op) : N × Except Err Out :=
